@@ -11,7 +11,12 @@ spec re-executes endowment, init-code writes, inner frames, the code deposit rul
 BOUNDARY-OPERAND layer (CallFramesBoundary.tla): TLC enumerates (opcode, operand classes, context) tuples - operands on
 the edges of every range the platform checks, 256-bit exact arithmetic in the spec - each tuple is compiled into a tiny
 real program, run twice on the real EVM inside a wrapper frame, and judged by TraceCallFramesBoundary.tla.  The code a
-jump executes in is an operand as well: it ends with a PUSHn cut off by the end of the code, at every length modulo 8."""
+jump executes in is an operand as well: it ends with a PUSHn cut off by the end of the code, at every length modulo 8.
+FRAME-LOCAL DETERMINISM (clause JumpIsFrameLocal): the frames under one root run code of different SHAPES (which marked
+offset holds 0x5b as PUSH data, short / long); actions Jump(d) / BadJump(d) let a frame jump to a class of destination;
+the jump goes on iff the destination is a JUMPDEST of the code the frame itself runs - whatever other code (init code of an
+earlier creation, caller, callee) was analysed before under the same root.  The tracer reads the shape off the code the
+frame really runs; TraceCallFrames.tla judges every jump by that shape alone."""
 import os, re, json, time, random, threading, collections, concurrent.futures
 LEVEL = "model_checking"
 
@@ -30,7 +35,14 @@ MANIFEST = dict(
          "and inner frames are undone, all its gas is gone and only the failure record stays; starved runs put the gas limit one unit below "
          "what the deposit needs. Simulated deeper behaviours (all five frame kinds), seeded random trees, random byte strings, opcode soups "
          "(a third of them wrapped into code that jumps and ends with a truncated PUSH), precompile "
-         "inputs and unbounded recursion are validated the same way. Boundary-operand layer: for 54 opcodes taking memory / data offsets, lengths, "
+         "inputs and unbounded recursion are validated the same way. Frame-local determinism: every account of the universe and every init "
+         "code holds the program image in a code shape of its own (6 shapes: which of 3 marked offsets is a 0x5b byte inside PUSH data - a "
+         "JUMPDEST instruction in the other shapes -, code short or 66 bytes longer with a JUMPDEST at its end); frames jump to the classes "
+         "{next byte, marked offset 0/1/2, far end}; the model (clause JumpIsFrameLocal; negative control: one analysis cache slot shared by all "
+         "init codes) lets the jump go on iff the destination is a JUMPDEST of the code the frame itself runs, else the frame fails as a no-op; "
+         "every edge of a graph with two nested creations of different shapes (creation -> call -> creation) is replayed, the simulated "
+         "behaviours and the seeded trees (seeded shapes) jump as well; TLC judges each real jump by the shape read off the code that frame "
+         "really ran: results must not depend on what else ran in the same call tree. Boundary-operand layer: for 54 opcodes taking memory / data offsets, lengths, "
          "gas, value, address, jump-destination or arithmetic operands TLC enumerates (opcode, operand-class tuple, context) with operand classes "
          "0,1,31,32,33,N-1,N,N+1,2^32-1,2^32,2^63,2^64-1,2^64,2^64+1,2^128,2^255,2^256-1 (N = memory / return data / call data / code length, "
          "balance, stipend), contexts {prior call left return data} x {read-only frame} x {ample, starved gas}; every tuple is compiled to a real "
@@ -272,7 +284,8 @@ def run(ctx):
                 raise vlib.Broken("vacuity: actions never taken in the thorough design run: %s" % zero)
             ctx.tlc_exhaustive("MCCallFrames", "MCCallFrames_base.cfg", timeout=900, workers=8)
         ctx.tlc_exhaustive("MCCallFrames", "MCCallFrames_depth.cfg", timeout=300, workers=4)
-        for cfg, want in (("MCCallFrames_negS.cfg", "FailedFrameIsNoop"), ("MCCallFrames_negG.cfg", "NoCrash"), ("MCCallFrames_negC.cfg", "FailedFrameIsNoop")):
+        for cfg, want in (("MCCallFrames_negS.cfg", "FailedFrameIsNoop"), ("MCCallFrames_negG.cfg", "NoCrash"), ("MCCallFrames_negC.cfg", "FailedFrameIsNoop"),
+                          ("MCCallFrames_negJ.cfg", "JumpIsFrameLocal")):
             neg = ctx.tlc("MCCallFrames", cfg, timeout=600, workers=4, expect_ok=False)
             ctx.extra.setdefault("negative_controls", {})[cfg] = neg["inv"]
             if neg["inv"] != want:
@@ -284,8 +297,11 @@ def run(ctx):
     # big, deposit not affordable), endowment, storage written by the init code, inner calls; collisions
     graphs = [("MCCallFrames_graph.cfg", "cover", 600 if quick else 0),
               ("MCCallFrames_create.cfg", "create", 500 if quick else 0),
-              ("MCCallFrames_collide.cfg", "collide", 150 if quick else 1500)]
+              ("MCCallFrames_collide.cfg", "collide", 150 if quick else 1500),
+              # code shapes: creation -> call -> creation, every frame jumps to every class of destination
+              ("MCCallFrames_shapes.cfg", "shapes", 900 if quick else 0)]
     if not quick:
+        graphs.append(("MCCallFrames_shapesB.cfg", "shapesB", 0))       # the shapes the other way round (long code first)
         graphs.append(("MCCallFrames_graph4.cfg", "cover4", 25000))     # a step deeper, 3 call kinds, no value
         graphs.append(("MCCallFrames_create2.cfg", "create2", 6000))    # two contracts, one of them colliding
 
@@ -359,7 +375,7 @@ def run(ctx):
     for s in (summ, summ2):
         for k, v in s["action_counts"].items():
             acts[k] += v
-    for a in ("EnterTop", "Enter", "SStore", "Log", "Exit", "Suicide", "Collide"):
+    for a in ("EnterTop", "Enter", "SStore", "Log", "Exit", "Suicide", "Collide", "Jump", "BadJump"):
         if not acts[a]:
             raise vlib.Broken("vacuity: action %s never replayed" % a)
 
@@ -376,8 +392,12 @@ def run(ctx):
             for i, x in enumerate(r["runs"]):
                 st["executions"] += 1
                 ob = x["obs"]
-                for j, e in enumerate(ob):              # how the creation frames went
-                    if e["t"] == "call" and e["k"] == "create":
+                for j, e in enumerate(ob):              # how the creation frames went, how the jumps
+                    if e["t"] == "jump":
+                        rej = j + 1 < len(ob) and ob[j + 1]["t"] == "end" and ob[j + 1]["k"] == "err" and ob[j + 1]["x"] and ob[j + 1]["op"] == "JUMP" and ob[j + 1]["pc"] == e["pc"]
+                        st["jumps_" + {"next": "next", "far": "far"}.get(e["s"], "marked") + ("_rejected" if rej else "_on")] += 1
+                        st["jumps_in_shape_%d" % e["v"]] += 1
+                    elif e["t"] == "call" and e["k"] == "create":
                         st["creations"] += 1
                         if j + 1 < len(ob) and ob[j + 1]["t"] == "ret":
                             st["creations_refused"] += 1
@@ -398,6 +418,9 @@ def run(ctx):
     for k in ("creations_refused", "creation_frames_deposited", "creation_frames_toobig", "creation_frames_nodeposit", "creation_frames_revert", "creation_frames_err"):
         if st[k] < 5:
             raise vlib.Broken("vacuity: creation frames: %s = %d in the real executions: %s" % (k, st[k], dict(st)))
+    for k in ("jumps_next_on", "jumps_marked_on", "jumps_marked_rejected", "jumps_far_on", "jumps_far_rejected") + tuple("jumps_in_shape_%d" % i for i in range(6)):
+        if st[k] < 5:
+            raise vlib.Broken("vacuity: code shapes: %s = %d in the real executions: %s" % (k, st[k], dict(st)))
     if st["programs_with_capped_gas"] * 20 > st["programs"]:
         raise vlib.Broken("vacuity: %d of %d programs ran with a capped gas plan" % (st["programs_with_capped_gas"], st["programs"]))
 
@@ -438,6 +461,10 @@ def run(ctx):
         "that holds something may be refused (collision) or carried out - both are accepted, refused only if nothing changes",
         "the init code that must fail the deposit burns its gas below 100 000 by read-only calls of the modexp precompile (a callee without "
         "account: modelled as a call that runs no code, changes nothing and may burn what it was given) and returns 1000 bytes",
+        "code shapes: every image of a tree has one layout; the shapes differ in three marked slots behind the header (PUSH1 0x5b POP in the "
+        "shape's own slot, JUMPDEST JUMPDEST JUMP - a trampoline - elsewhere) and in a tail of 64 STOP + JUMPDEST JUMP; a creating frame "
+        "re-shapes the copy of its own image in memory; the code a creation deposits has the shape of its init code; the shape of a frame's "
+        "code is read off contract.Code by the tracer, the destination class off the JUMP operand; jumps of the dispatcher are not classified",
         "published events = AddEventLog entries of the change journal (Account.GetEvents is C07's concern)",
         "per-opcode arithmetic and gas tables are not specified; gas is checked by conservation (exact return accounting, 63/64 cap, never grows)",
         "boundary layer: memory up to 4 KiB is affordable with the 1 000 000 gas of the ample context, 2^32-1 bytes and more with no gas limit "
